@@ -365,7 +365,14 @@ type vC42Step struct {
 	kind    string // reload | describe | wait-stop
 	query   string
 	running bool // reload issued while the source instance runs
+	reader  bool // describe: the request that starts the source is an add-reader request (doAddReader), not a describe
 }
+
+type vC42Reader struct{}
+
+func (vC42Reader) Log(logger.Level, string, ...any)          {}
+func (vC42Reader) Close()                                    {}
+func (vC42Reader) APIReaderDescribe() *defs.APIPathReader { return nil }
 
 type vC42Out struct {
 	coq        string
@@ -573,13 +580,18 @@ func vC42RunSource(dir string, name string, key0 string, mkTmpl func(port int) s
 	var descDone chan struct{}
 	var descAt time.Time
 	curURL, query := "", ""
+	nDescribes, lastTrans := 0, "" // consecutive on-demand starts: E = request without a query, Q = with a query
 	running := false
-	describe := func(q string) {
+	describe := func(q string, reader bool) {
 		descDone = make(chan struct{})
 		descAt = time.Now()
 		done := descDone
 		go func() {
 			defer close(done)
+			if reader {
+				h.pm.AddReader(defs.PathAddReaderReq{Author: vC42Reader{}, AccessRequest: defs.PathAccessRequest{Name: name, Query: q, SkipAuth: true}}) //nolint:errcheck
+				return
+			}
 			h.pm.Describe(defs.PathDescribeReq{AccessRequest: defs.PathAccessRequest{Name: name, Query: q, SkipAuth: true}}) //nolint:errcheck
 		}()
 	}
@@ -604,7 +616,20 @@ func vC42RunSource(dir string, name string, key0 string, mkTmpl func(port int) s
 			if running {
 				continue
 			}
-			describe(st.query)
+			if nDescribes > 0 {
+				qk := func(q string) string {
+					if q == "" {
+						return "E"
+					}
+					return "Q"
+				}
+				lastTrans = qk(query) + ">" + qk(st.query)
+				if query != st.query && strings.Contains(tmpl, "$MTX_QUERY") {
+					nontrivial = true
+				}
+			}
+			nDescribes++
+			describe(st.query, st.reader)
 			query = st.query
 			urls, ok := l.takeWhen(func(u []string) bool { return len(u) >= 1 }, 5*time.Second)
 			if !ok && !stayRunning {
@@ -623,7 +648,12 @@ func vC42RunSource(dir string, name string, key0 string, mkTmpl func(port int) s
 			}
 			ob, d := srcObs(urls)
 			stepTerms = append(stepTerms, cqPair(cqApp("OSrcStart", in.B(st.query)), ob))
-			descSteps = append(descSteps, map[string]any{"op": "a reader asks for the path with query " + strconv.Quote(st.query) + ": source started on demand",
+			via := "describe request"
+			if st.reader {
+				via = "add-reader request"
+				feats["started-by-reader"] = true
+			}
+			descSteps = append(descSteps, map[string]any{"op": "a reader asks for the path (" + via + ") with query " + strconv.Quote(st.query) + ": source started on demand",
 				"groups": fmt.Sprintf("%q", curMs), "observed": d})
 		case "wait-stop":
 			if !running || stayRunning {
@@ -689,6 +719,12 @@ func vC42RunSource(dir string, name string, key0 string, mkTmpl func(port int) s
 	class := "life:path:source:" + vC42Class(feats)
 	if feats["running-source-restarted"] {
 		class += ":running"
+	}
+	if lastTrans != "" {
+		class += ":starts-" + lastTrans
+	}
+	if feats["started-by-reader"] {
+		class += ":by-reader"
 	}
 	body := cqApp("Life", in.B(name), in.MS(ms0), "[]", "(Some "+in.B(tmpl)+")", ob0, cqList(stepTerms))
 	return &vC42Out{coq: in.Wrap(body), class: class, nontrivial: nontrivial,
@@ -856,6 +892,15 @@ func TestVerifC42Core(t *testing.T) {
 	addSource("cam_front", "~^(cam)_(front)$", srcTmpls[1], []vC42Step{{kind: "describe", query: ""},
 		sre("cam_front", "~^(cam)_(front)$", "~^(.+?)_(.+)$"), sre("cam_front", "~^(.+?)_(.+)$", "~^(ca)m_(fr)ont$"),
 		sre("cam_front", "~^(ca)m_(fr)ont$", "~^(ca)m_front$")}, "directed", true)
+	// consecutive on-demand starts, each with the query of its own request: with a query, then without, then another
+	// (no reload at all; a reload in between)
+	addSource("cam_front", "~^(cam)_(front)$", srcTmpls[0], []vC42Step{{kind: "describe", query: "token=abc"}, {kind: "wait-stop"},
+		{kind: "describe", query: ""}, {kind: "wait-stop"}, {kind: "describe", query: "user=x"}, {kind: "wait-stop"}}, "directed", false)
+	addSource("cam_front", "~^(cam)_front$", srcTmpls[2], []vC42Step{{kind: "describe", query: "a=b"}, {kind: "wait-stop"},
+		sre("cam_front", "~^(cam)_front$", "~^(cam)_(front)$"), {kind: "describe", query: ""}, {kind: "wait-stop"}}, "directed", false)
+	// the same with add-reader requests (path.doAddReader hands its own query to the source)
+	addSource("cam_front", "~^(cam)_(front)$", srcTmpls[0], []vC42Step{{kind: "describe", query: "r=1", reader: true}, {kind: "wait-stop"},
+		{kind: "describe", query: "", reader: true}, {kind: "wait-stop"}, {kind: "describe", query: "d=2"}, {kind: "wait-stop"}}, "directed", false)
 	nSrc := 4 + vN()/150
 	for i := 0; i < nSrc; i++ {
 		name := vPick(r, names)
@@ -870,7 +915,7 @@ func TestVerifC42Core(t *testing.T) {
 		k0 := cur
 		var steps []vC42Step
 		stay := r.Chance(2, 5)
-		steps = append(steps, vC42Step{kind: "describe", query: vPick(r, []string{"", "a=b", "t=$G1", "x=1&y=2"})})
+		steps = append(steps, vC42Step{kind: "describe", query: vPick(r, []string{"", "a=b", "t=$G1", "x=1&y=2"}), reader: r.Chance(1, 3)})
 		if stay {
 			// reloads while the source runs
 			for k, nst := 0, 1+r.Intn(3); k < nst; k++ {
@@ -887,7 +932,7 @@ func TestVerifC42Core(t *testing.T) {
 					steps = append(steps, sre(name, cur, nk))
 					cur = nk
 				}
-				steps = append(steps, vC42Step{kind: "describe", query: vPick(r, []string{"", "q=7", "k=$G2"})}, vC42Step{kind: "wait-stop"})
+				steps = append(steps, vC42Step{kind: "describe", query: vPick(r, []string{"", "", "q=7", "k=$G2"}), reader: r.Chance(1, 3)}, vC42Step{kind: "wait-stop"})
 			}
 		}
 		addSource(name, k0, vPick(r, srcTmpls), steps, "random", stay)
